@@ -86,6 +86,7 @@ func init() {
 			[]string{"ATOMICW:Memberlist.leave", "CALL:dead"}, func(g getf) bool {
 				return !isT(g, vLeft) && isT(g, vOK) && !isT(g, "shutdown")
 			})
+		checkLeaveFlagMonotone(c, "C08")
 		checkLeaveWait(c, l)
 
 		// 2. dead handler: left <=> self-signed; own departure is gossiped with the notification channel Leave waits on
@@ -323,4 +324,30 @@ func checkReclaimDefUse(c *Ctx, a *handlerModel) {
 	}
 	c.Check("C08/alive/reclaim-defuse", rule, a.fn.Decl.Pos(), seenAge && seenCfg && usedAge,
 		fmt.Sprintf("age atom over (time.Since(record.StateChange), DeadNodeReclaimTime) consulted=%v, DeadNodeReclaimTime>0 atom present=%v", usedAge, seenCfg))
+}
+
+// checkLeaveFlagMonotone: the leave flag is only ever set, never cleared. The
+// handlers' "once left" rows, and the invariant that the local node's record
+// is alive while the node has not left, rest on this: if the flag could go
+// back to zero while the own record is already marked left, later claims about
+// the local node would be treated as if it were running (refutation, a join
+// event without a membership change).
+func checkLeaveFlagMonotone(c *Ctx, prop string) {
+	p := c.P
+	rule := "the leave flag is only ever set: every write to it stores the constant 1 (it is never cleared once Leave has begun)"
+	c.Rule(rule)
+	n := 0
+	for _, s := range c.G.SitesOfKind("ATOMICW:Memberlist.leave") {
+		n++
+		ok := false
+		if s.Call != nil && len(s.Call.Args) == 1 {
+			if se, isSel := ast.Unparen(s.Call.Fun).(*ast.SelectorExpr); isSel && se.Sel.Name == "Store" {
+				if v, isC := p.ConstInt(s.Call.Args[0]); isC && v == 1 {
+					ok = true
+				}
+			}
+		}
+		c.Check(prop+"/leave-flag-monotone/"+s.Fn.Name, rule, s.Pos, ok, "the leave flag is written with something other than Store(1) in "+s.Fn.Name)
+	}
+	c.Floor("writes to the leave flag", n, 1)
 }
